@@ -244,6 +244,13 @@ class Run(object):
         s = self.stores[si]
         ctype, fmt, size = ELEM[elem]
         nbytes = len(s['model'])
+        src, off = s['obj'], 0
+        if (r // 7) % 4 == 0 and nbytes > 0:
+            # the source is a slice of the object (a memoryview with an offset), not the object itself
+            off = (r // 29) % (nbytes + 1)
+            src = memoryview(s['obj']).cast('B')[off:]
+            nbytes -= off
+            self.out.probe('from_buffer_over_a_memoryview_slice')
         items = nbytes // size
         if shape == 'open':
             T = ctype + '[]'
@@ -262,7 +269,7 @@ class Run(object):
             want = None
             fail = None
         try:
-            cd = self.ffi.from_buffer(T, s['obj'], writable)
+            cd = self.ffi.from_buffer(T, src, writable)
         except ValueError:
             if fail is None:
                 raise Violation('C19.2', 'from_buffer(%r, <%d bytes>) raised ValueError' % (T, nbytes))
@@ -273,7 +280,8 @@ class Run(object):
         if want is not None and len(cd) != want:
             raise Violation('C19.2', 'from_buffer(%r, <%d bytes>) has %d items, expected %d' % (T, nbytes, len(cd), want))
         n = (want if want is not None else items) * size
-        self.views.append(dict(kind='fb', obj=cd, s=si, off=0, n=n, elem=elem, items=n // size, ro=False,
+        del src
+        self.views.append(dict(kind='fb', obj=cd, s=si, off=off, n=n, elem=elem, items=n // size, ro=False,
                                isarray=(shape != 'ptr')))
         if nbytes % size:
             self.out.probe('partial_last_element_ignored')
@@ -301,7 +309,7 @@ class Run(object):
         s = self.stores[v['s']]
         ctype, fmt, size = ELEM[v['elem']]
         i = r % v['items']
-        off = i * size
+        off = v['off'] + i * size
         if write:
             raw = bytes((r + 5 * t) % 256 for t in range(size))
             val = raw if v['elem'] == 'char' else struct.unpack(fmt, raw)[0]
